@@ -1,12 +1,23 @@
 use crate::common::Engine;
 pub mod swapmath;
 pub mod vault;
+pub mod epochs;
+pub mod slippage;
+pub mod quotes;
+pub mod authmatrix;
+pub mod lair;
+pub mod feeflow;
 
 pub fn make(name: &str, variant: &str) -> Option<Box<dyn Engine>> {
-    let _ = variant;
     match name {
         "swapmath" => Some(Box::new(swapmath::SwapMath::default())),
         "vault" => Some(Box::new(vault::VaultEngine::default())),
+        "epochs" => Some(Box::new(epochs::Epochs::default())),
+        "slippage" => Some(Box::new(slippage::Slippage::new(variant))),
+        "quotes" => Some(Box::new(quotes::Quotes::new(variant))),
+        "authmatrix" => Some(Box::new(authmatrix::AuthMatrix::new(variant))),
+        "lair" => Some(Box::new(lair::Lair::default())),
+        "feeflow" => Some(Box::new(feeflow::Feeflow::new(variant))),
         _ => None,
     }
 }
